@@ -74,6 +74,7 @@ class Recorder(object):
         self.events = []          # every event in occurrence order
         self.pending = {}         # id(session) -> [Event]
         self.commits = []         # (commit_no, step, task label, [Event])
+        self.commit_times = []    # virtual time of each commit
         self.seq = 0
         self.cas_calls = []       # (step, task, table, id, cur, new, won)
         self.action_seq = {}      # (task_ex_id, index) -> [action_ex ids]
@@ -106,6 +107,7 @@ class Recorder(object):
             e.commit_step = self.sim.step
         c = (len(self.commits), self.sim.step, self._task_label(), evs)
         self.commits.append(c)
+        self.commit_times.append(self.sim.now)
         for cb in self.on_commit:
             cb(self, c)
 
